@@ -901,6 +901,10 @@ def call_builtin(I, fv: BoundV, args: list, kwargs: dict, st, node=None) -> list
             if isinstance(r, list):
                 return [(st.alloc(HObj("list", items=r)), st)]
             return [(r, st)]
+    if isinstance(recv, str) and name == "format" and I.probes.get("str.format") is not None:
+        r = I.probes["str.format"](I, recv, args, kwargs, st, node)
+        if r is not None:
+            return r
     if isinstance(recv, str) and name == "join" and args:
         items = iter_values(I, args[0], st)
         if items is not None:
@@ -1139,6 +1143,9 @@ def b_str(I, args, kwargs, st, node):
         return [(str(v), st)]
     if isinstance(v, Opaque):
         return [(new_text((), "str(" + v.cls + ")"), st)]
+    if isinstance(v, Term) and v.head.split(".")[-1] in ("Path", "PurePath", "PosixPath") and len(v.args) == 1 and isinstance(v.args[0], str) \
+            and "/" not in v.args[0] and v.args[0] not in ("", "."):
+        return [(v.args[0], st)]  # str(Path(name)) == name for a plain, already normal name
     return [(Unknown("str"), st)]
 
 
